@@ -457,6 +457,26 @@ run_coq("rotcs", "(float * float) * (mat3 float * mat3 float * mat3 float)", rot
         "rotmat", "rotation_matrix_x/y/z as functions of (cos, sin)")
 samples.append({k: rm_meta[-1][k] for k in ("fn", "yaw", "pitch", "roll", "impl", "model")})
 
+# HISTORY: a matrix returned by a constructor is the caller's own; editing it in place (mirroring an axis, zeroing tiny
+# entries) must not change what the constructor returns next time for the same angles
+for it in range(6 if Q else 40):
+    ang = [float(x) for x in rng.uniform(-np.pi, np.pi, 3)]
+    for nm_, mk_ in (("rotation_matrix_ypr", lambda: g.rotation_matrix_ypr(*ang)), ("rotation_matrix_x", lambda: g.rotation_matrix_x(ang[0])),
+                     ("rotation_matrix_y", lambda: g.rotation_matrix_y(ang[1])), ("rotation_matrix_z", lambda: g.rotation_matrix_z(ang[2]))):
+        first = mk_()
+        pristine = np.array(first, copy=True)
+        try:
+            first[...] = first * np.array([1.0, 1.0, -1.0])[None, :] + 7.0
+        except ValueError:
+            pass                       # a read-only result is fine too
+        again = np.asarray(mk_())
+        evaluations += 1
+        chk.count(constructor_history=nm_)
+        if not np.array_equal(again, pristine):
+            chk.violation("rotation:history", f"{nm_} returns a different matrix after the caller edited in place the matrix it had "
+                          "been given by an earlier call with the same angles",
+                          dict(function=nm_, angles=ang, first_call=pristine, second_call=again, predicate="R(angles) is a function of the angles"), True)
+
 # ---------------------------------------------------------------------------
 # 3. direct_isometry_2d / direct_isometry_3d (class T + spec)
 # ---------------------------------------------------------------------------
@@ -478,6 +498,12 @@ for it in range(40 if Q else 1200):
     Bp = Ap + L2 * np.array([math.cos(a2), math.sin(a2)])
     if kind == 3:      # exactly representable right angle
         A, B, Ap, Bp = np.array([1.0, 2.0]), np.array([4.0, 6.0]), np.array([-1.0, 0.5]), np.array([-5.0, 3.5])
+    if kind == 4 and (it // 8) % 2 == 0:      # exact half turn: A'B' = -AB (a segment flipped end to end), dyadic coordinates
+        A, d_ = dyadic((2,)), dyadic((2,))
+        d_ = d_ if np.any(d_ != 0) else np.array([1.0, 0.5])
+        B, Ap = A + d_, dyadic((2,))
+        Bp = Ap - d_
+        L = L2 = float(np.linalg.norm(d_))
     replay = dict(A=A, B=B, Ap=Ap, Bp=Bp)
     try:
         M, P = g.direct_isometry_2d(A, B, Ap, Bp)
